@@ -90,6 +90,16 @@ def frames(prop):
     add({'C19'}, lambda: F.only_in(
         'frame/node-height-assigned-only-in-Node::set_height', r'\bheight\s*\.\s*(set|replace)\(', {'set_height'}, NODE, min_hits=1))
 
+    # -- OrdMap adapter (im_rc enumerates; the crate only re-tags): argument order of the dependency calls -----------
+    add({'C18'}, lambda: F.in_order(
+        'frame/ordmap-symmetric_diff-is-self.diff(other)-retagged', 'incremental-map/src/im_rc.rs', 'symmetric_diff',
+        [r'self\.diff\(other\)\s*\.map\(DiffElement::from_diff_item\)'],
+        impl="impl<'a, K: Ord + 'a, V: PartialEq + 'a> SymmetricDiffMap<'a, K, V> for OrdMap<K, V>"))
+    add({'C18'}, lambda: F.in_order(
+        'frame/ordmap-symmetric_fold-folds-self.symmetric_diff(other)', 'incremental-map/src/im_rc.rs', 'symmetric_fold',
+        [r'self\.symmetric_diff\(other\)\s*\.fold\(init,\s*f\)'],
+        impl='impl<K: Ord, V: PartialEq> SymmetricFoldMap<K, V> for OrdMap<K, V>'))
+
     # -- only needed nodes are scheduled -------------------------------------------------------------------
     add({'C05'}, lambda: F.each_guarded(
         'frame/every-recompute_heap.insert-is-dominated-by-a-necessity-test-or-assertion', r'recompute_heap\s*\.\s*insert\(',
